@@ -191,7 +191,7 @@ def api_single(pat, flags, hay_hex):
     d = os.path.join(BUILD, "tmp"); os.makedirs(d, exist_ok=True)
     f = os.path.join(d, "api_%d.txt" % os.getpid())
     open(f, "w").write("%s\t%s\t%s\n" % (flags or "-", encode_pat(pat), hay_hex or "-"))
-    rc, out = sh("set -o pipefail; %s apicases %s | %s api" % (harness_bin(), f, os.path.join(BUILD, "extract", "driver")), 300)
+    rc, out = sh("set -o pipefail; ulimit -s 1000000; %s apicases %s | %s api" % (harness_bin(), f, os.path.join(BUILD, "extract", "driver")), 300)
     os.remove(f)
     return [l for l in out.split("\n") if l.startswith("PROPVIOL")], [l for l in out.split("\n") if l.startswith("MISMATCH")], out
 
@@ -324,7 +324,7 @@ def run_tables(ctx):
             qf = os.path.join(d, "propqueries_%d.txt" % os.getpid())
             q = props_queries()
             open(qf, "w").write("".join("%s\t%s\t%s\n" % t for t in q))
-            rc, out = sh("set -o pipefail; %s props %s | %s props" % (harness_bin(), qf, os.path.join(BUILD, "extract", "driver")), 600)
+            rc, out = sh("set -o pipefail; ulimit -s 1000000; %s props %s | %s props" % (harness_bin(), qf, os.path.join(BUILD, "extract", "driver")), 600)
             os.remove(qf)
             if rc != 0: broken.append("pipeline: rc=%d %s" % (rc, out[-300:]))
             for line in out.split("\n"):
@@ -335,9 +335,9 @@ def run_tables(ctx):
         else:
             # C10: fold / unfold sweep over the whole code space, 16 ranges in parallel
             step = 0x110000 // 16
-            cmds = ["set -o pipefail; %s fold %d %d | %s fold" % (harness_bin(), k * step, (k + 1) * step - 1 if k < 15 else 0x10FFFF, os.path.join(BUILD, "extract", "driver")) for k in range(16)]
+            cmds = ["set -o pipefail; ulimit -s 1000000; %s fold %d %d | %s fold" % (harness_bin(), k * step, (k + 1) * step - 1 if k < 15 else 0x10FFFF, os.path.join(BUILD, "extract", "driver")) for k in range(16)]
             # engine-level relation (backreference / literal / class / negated class through the public API), code space in 16 ranges
-            cmds += ["set -o pipefail; %s foldeq %d %d | %s foldeq" % (harness_bin(), k * step, (k + 1) * step - 1 if k < 15 else 0x10FFFF, os.path.join(BUILD, "extract", "driver")) for k in range(16)]
+            cmds += ["set -o pipefail; ulimit -s 1000000; %s foldeq %d %d | %s foldeq" % (harness_bin(), k * step, (k + 1) * step - 1 if k < 15 else 0x10FFFF, os.path.join(BUILD, "extract", "driver")) for k in range(16)]
             with concurrent.futures.ThreadPoolExecutor(max_workers=NCPU) as ex:
                 for rc, out in ex.map(lambda c: sh(c, 900), cmds):
                     if rc != 0: broken.append("pipeline: rc=%d %s" % (rc, out[-300:]))
@@ -479,7 +479,7 @@ def exec_results(feat, seed, npat, nhay, budget, drv_env=""):
         elif t[0] == "H": hay = (t[1], t[2])
         elif t[0] == "R": res[(cid, hay, t[1])] = (t[2], " ".join(t[4:]))
         elif t[0] == "X": res[(cid, None, "compile")] = ("panic", "")
-    rc2, out2 = sh("%s %s exec %d < %s" % (drv_env, db, budget, f), 900)
+    rc2, out2 = sh("ulimit -s 1000000; %s %s exec %d < %s" % (drv_env, db, budget, f), 900)
     os.remove(f)
     summ, mism = {}, []
     for line in out2.split("\n"):
